@@ -24,12 +24,14 @@ FAMILIES = {
     "pushRaceBc": {"quick": 150, "thorough": 3000},  # scripted server pushes on requests the real client is cancelling (ResponseFuture dropped, RST_STREAM perhaps not yet written) with max_concurrent_reset_streams 0 / 1 / default: the parent may already be forgotten when the PUSH_PROMISE arrives
     "cancelA": {"quick": 150, "thorough": 3000},   # cooperative real pair: streams abandoned with work still queued (DATA buffered / capacity reserved / response half sent) by dropping the last handle or resetting, on either side; then a witness exchange of more than a connection window each way must complete and all bookkeeping must be back to idle
     "capWaitBc": {"quick": 100, "thorough": 2000},   # the ways a writer comes to wait in poll_capacity with the "capacity changed" flag still set (grant consumed without polling, grant taken back by SETTINGS before the woken task ran, reserve(0) in between): the next grant must wake it; cooperative in the end
+    "pingsA": {"quick": 150, "thorough": 3000},   # user PINGs one after the other through the same handle, from either endpoint, at quiet moments and beside traffic: every accepted send_ping reaches the wire and is answered
     "wuBurstBs": {"quick": 40, "thorough": 300},   # 40-130 streams owe a WINDOW_UPDATE at once while the endpoint's writes are blocked and its write buffer is nearly full
     "inlineA": {"quick": 600, "thorough": 12000},   # C20: handle operations executed INSIDE the read / write / flush callbacks of the connection task (parked handles), real client <-> real server
     "threadsA": {"quick": 1500, "thorough": 40000},   # C20: REAL parallel executions: connections and every request half on their own OS threads; handle call + log entry atomic under the transport's mutex, so the trace is a valid linearization
     "conformSend": {"quick": 40, "thorough": 1500},
     "conformStreams": {"quick": 150, "thorough": 3000},  # TLC simulation runs of MC_Streams (stream store / counters, server role) replayed on the real server
     "conformTasks": {"quick": 150, "thorough": 3000},   # TLC simulation runs of MC_Tasks (wake-up protocol, both roles) replayed under the strict executor: the set of parked tasks compared at every quiescence
+    "conformPush": {"quick": 300, "thorough": 3000},   # TLC simulation runs of MC_Push (server-push machinery, both roles) replayed on the real library: frames in order, API results, counters and EVERY slab record compared at every quiescence
     "conformConn": {"quick": 400, "thorough": 6000},   # TLC simulation runs of MC_Conn (SETTINGS / PING / GOAWAY / shutdown machinery, both roles) replayed on the real library
     "conformRecv": {"quick": 80, "thorough": 3000},  # TLC simulation runs of MC_Recv replayed on the real server (byte-exact)  # TLC simulation runs of MC_Send (x ~3 behaviours each) replayed on the real client
 }
@@ -38,7 +40,7 @@ SEND_SLICE = {"module": "MC_Send", "cfg_quick": "MC_Send_quick.cfg", "cfg_thorou
               "constants": "2 streams, IW=2 CW=3 MF=2 units, sends {3}, WU {2}, SETTINGS {0,3}, reserve {2}, 1 reset; every interleaving with a frame parked in the codec",
               "timeout_thorough": 2400, "coverage": False}
 
-WIRE_AB = ["mixA", "mixAd", "bpReset", "flowBs", "flowBc", "capRace", "ctlB", "concBc", "faultA", "goawayBc", "shutdownA", "abuseB", "shutdownBs", "floodBs", "floodBc", "wuBurstBs", "rstRaceBc", "pushRaceBs", "pushRaceBc", "cancelA", "capWaitBc"]
+WIRE_AB = ["mixA", "mixAd", "bpReset", "flowBs", "flowBc", "capRace", "ctlB", "concBc", "faultA", "goawayBc", "shutdownA", "abuseB", "shutdownBs", "floodBs", "floodBc", "wuBurstBs", "rstRaceBc", "pushRaceBs", "pushRaceBc", "cancelA", "capWaitBc", "pingsA"]
 
 RECV_SLICE = {"module": "MC_Recv", "cfg_quick": "MC_Recv_quick.cfg", "cfg_thorough": "MC_Recv_thorough.cfg",
               "constants": "2 streams, IW=6 CW=8, DATA {0,1,6} x padding {0,1} x END_STREAM, release {1,2}, 1 handle drop, 1 reset either side, target {6,10}, SETTINGS {1,8} applied at the peer's ACK; legal peer; leak rules at every quiescent state",
@@ -55,6 +57,15 @@ CONN_SLICES = [
     {"module": "MC_Conn", "cfg_quick": "MC_Conn_client_quick.cfg", "cfg_thorough": "MC_Conn_client_thorough.cfg", "workers": 6, "heap": "10g",
      "constants": "client role, same budgets; idle close when the last handle and stream are gone",
      "timeout_quick": 1200, "timeout_thorough": 3000, "coverage": False},
+]
+
+PUSH_SLICES = [
+    {"module": "MC_Push", "cfg_quick": "MC_Push_quick.cfg", "cfg_thorough": "MC_Push_thorough.cfg", "workers": 6, "heap": "8g",
+     "constants": "server role: 2 parents, 1 push (thorough: 2), peer limit 1 (may change), reset memory 1; push_request / send_response / send_data / send_reset / handle drops in any order, one frame popped per step (writes delayed arbitrarily), every peer frame kind on parent and promised ids (legal or not by the WIRE), SETTINGS(max concurrent / ENABLE_PUSH=0), GOAWAY, EOF",
+     "timeout_quick": 900, "timeout_thorough": 3000, "coverage": False},
+    {"module": "MC_Push", "cfg_quick": "MC_Push_client_quick.cfg", "cfg_thorough": "MC_Push_client_thorough.cfg", "workers": 6, "heap": "8g",
+     "constants": "client role: PUSH_PROMISE (legal / illegal: ids, parent state, ENABLE_PUSH, method), pushed HEADERS / DATA / RST_STREAM, PushPromises handle polled / dropped, requests cancelled and forgotten, local limit on pushed streams, reset expiry",
+     "timeout_quick": 900, "timeout_thorough": 3000, "coverage": False},
 ]
 
 def _tasks_slice(q, t, what, workers=6):
@@ -77,14 +88,14 @@ PLAN = {
             "must_hit": ["C02.stream_credit", "C02.conn_credit", "C02.exhausts"]},
     "C03": {"rules": ["C03."], "families": WIRE_AB + ["conformRecv"], "slices": [RECV_SLICE], "level": "model_checking",
             "must_hit": ["C03.conn_overcredit", "C03.stream_overcredit"]},
-    "C04": {"rules": ["C04."], "families": WIRE_AB, "slices": [], "level": "exploration",
+    "C04": {"rules": ["C04."], "families": WIRE_AB + ["conformPush"], "slices": PUSH_SLICES, "level": "exploration",
             "must_hit": ["C04.stream_kind", "C04.id_order", "C04.after_es", "C04.data_state", "C04.contiguous"]},
     "C05": {"rules": ["C05."], "families": WIRE_AB + ["conformStreams"], "slices": [STREAMS_SLICE], "level": "model_checking",
             "must_hit": ["C05.send_limit"]},
-    "C06": {"rules": ["C06."], "families": ["mixA", "mixAd", "bpReset", "cancelA", "capWaitBc", "conformTasks"], "slices": TASKS_SLICES, "level": "model_checking", "must_hit": ["C06.progress"]},
+    "C06": {"rules": ["C06."], "families": ["mixA", "mixAd", "bpReset", "cancelA", "capWaitBc", "pingsA", "ctlB", "shutdownBs", "goawayBc", "conformTasks"], "slices": TASKS_SLICES, "level": "model_checking", "must_hit": ["C06.progress"]},
     "C07": {"rules": ["C07."], "families": WIRE_AB, "slices": [], "level": "fault_enumeration", "must_hit": ["C07.resolved"]},
     "C08": {"rules": ["C08."], "families": WIRE_AB + ["mutateB"], "slices": [], "level": "exploration", "must_hit": []},
-    "C09": {"rules": ["C09."], "families": WIRE_AB, "slices": [], "level": "exploration", "must_hit": ["C09.conn_error", "C09.stream_error", "C09.legal_not_penalised"]},
+    "C09": {"rules": ["C09."], "families": WIRE_AB + ["conformPush"], "slices": PUSH_SLICES, "level": "exploration", "must_hit": ["C09.conn_error", "C09.stream_error", "C09.legal_not_penalised"]},
     "C10": {"engine": True, "rules": ["C10."], "level": "model_checking"},
     "C11": {"engine": True, "rules": ["C11."], "level": "model_checking"},
     "C12": {"engine": True, "rules": ["C12."], "level": "model_checking"},
